@@ -68,13 +68,22 @@ def _run_shard(exe, sub, cases, per_case_timeout, extra_args, env=None):
     """Run cases through one vh process; resume after hard crashes/timeouts."""
     results = [None] * len(cases)
     i = 0
+    n_timeouts = 0
     while i < len(cases):
+        if n_timeouts >= 12:
+            # the build under test hangs on many inputs: enough evidence, do not spend the whole budget on it
+            for j in range(i, len(cases)):
+                results[j] = {"crash": "not run: too many timeouts in this batch"}
+            break
         chunk = cases[i:]
         data = "".join(json.dumps(c) + "\n" for c in chunk)
         budget = 30 + per_case_timeout * len(chunk)
+        wenv = dict(env or ENV)
+        # the harness ends itself (exit 97) when ONE case exceeds its limit, so a hanging case costs its own limit, not the chunk's budget
+        wenv.setdefault("VH_CASE_TIMEOUT_MS", str(int(max(per_case_timeout, 1.0) * 1000 * 3)))
         try:
             p = subprocess.run([exe, sub] + extra_args, input=data, stdout=subprocess.PIPE,
-                               stderr=subprocess.DEVNULL, text=True, env=env or ENV, timeout=budget)
+                               stderr=subprocess.DEVNULL, text=True, env=wenv, timeout=budget)
             out, rc, timed_out = p.stdout, p.returncode, False
         except subprocess.TimeoutExpired as e:
             out = e.stdout.decode() if isinstance(e.stdout, bytes) else (e.stdout or "")
@@ -98,7 +107,8 @@ def _run_shard(exe, sub, cases, per_case_timeout, extra_args, env=None):
             break
         # the case whose marker came last without a result crashed / hung
         if last >= 0 and results[i + last] is None:
-            results[i + last] = {"crash": "timeout" if timed_out else "exit %s" % rc}
+            results[i + last] = {"crash": "timeout" if (timed_out or rc == 97) else "exit %s" % rc}
+            n_timeouts += 1 if (timed_out or rc == 97) else 0
             i = i + last + 1
         elif last == -1:
             results[i] = {"crash": "no output, exit %s" % rc}
